@@ -696,9 +696,19 @@ impl Xot {
         let clone = self.clone_node(node);
         // add any prefixes from outer scope we may need
         if self.is_element(clone) {
+            // an element in no namespace cannot declare a default namespace
+            // on itself: its own name would end up in that namespace
+            let in_no_namespace = self
+                .element(clone)
+                .map(|element| self.namespace_for_name(element.name()) == self.no_namespace())
+                .unwrap_or(false);
+            let empty_prefix = self.empty_prefix();
             let mut namespaces = self.namespaces_mut(clone);
             for (prefix, ns) in prefixes {
                 if namespaces.contains_key(prefix) {
+                    continue;
+                }
+                if in_no_namespace && prefix == empty_prefix {
                     continue;
                 }
                 namespaces.insert(prefix, ns);
